@@ -178,6 +178,11 @@ func checkC19(c *core.Ctx, r *core.Report) {
 			if callee := call.Common().StaticCallee(); callee != nil && isPureStringHelper(callee, pure, 0) {
 				prop := false
 				for _, ti := range tainted {
+					// a helper that validates the argument itself (every return that reports success lies
+					// behind a validator / membership check of that parameter) hands back a checked name
+					if validates[callee][ti] {
+						continue
+					}
 					if pureHelperPropagates(callee, ti, 0) {
 						prop = true
 					}
